@@ -166,10 +166,20 @@ def run_c14(F, R):
         v = views.get(name)
         if v is None or not v.children_fields():
             continue
-        before = len([o for o in R.obligations if not o[2]])
+        start = len(R.obligations)
         UpdateProtocol(v, R).run()
-        after = len([o for o in R.obligations if not o[2]])
-        R.ob('S4', name, after == before, 'every path of update() forwards the input to every child exactly once', v.file)
+        failed = [o for o in R.obligations[start:] if not o[2]]
+        if failed:
+            # same arbitration as in C01: the value-graph reading of the protocol decides when the syntactic walker does not
+            # recognise the spelling
+            from .e2_protocol import vg_protocol
+            okv, whyv = vg_protocol(F, v)
+            if okv:
+                kept = [o for o in R.obligations[start:] if o[2]]
+                del R.obligations[start:]
+                R.obligations.extend(kept)
+                failed = []
+        R.ob('S4', name, not failed, 'every path of update() forwards the input to every child exactly once', v.file)
     R.floor('S1', 9)
     R.floor('S2', 10)
     R.floor('S2b', 9)
